@@ -35,19 +35,6 @@ pub const ALL: &[W] = &[
     W {
         pid: "C01",
         finding: "relate_proper_crossing_at_member_touch_point",
-        name: "area_area_crossing_at_touch_point_of_members",
-        input: "POLYGON((1 3,5 3,5 5,1 5,1 3)) x MULTIPOLYGON(((0 0,6 0,6 6,0 6,0 0),(2 2,4 2,4 4,2 4,2 2)),((3 2,4 3,3 4,2 3,3 2)))",
-        expected: "21210F212",
-        recorded_wrong: &["212101212"],
-        run: || {
-            let a = wkt!(POLYGON((1. 3.,5. 3.,5. 5.,1. 5.,1. 3.)));
-            let b = wkt!(MULTIPOLYGON(((0. 0.,6. 0.,6. 6.,0. 6.,0. 0.),(2. 2.,4. 2.,4. 4.,2. 4.,2. 2.)),((3. 2.,4. 3.,3. 4.,2. 3.,3. 2.))));
-            im(a.relate(&b))
-        },
-    },
-    W {
-        pid: "C01",
-        finding: "relate_proper_crossing_at_member_touch_point",
         name: "line_area_crossing_at_touch_point_computed",
         input: "LINESTRING(774110 754372,81578 -169004) x square with hole + island whose vertex (218384 13404) lies on the hole side and on the line",
         expected: "10F0FF212",
